@@ -12,12 +12,14 @@ package c15
 // No store-call record exists for a CLI case; effects are judged from the snapshots alone.
 
 import (
+	"bytes"
 	"encoding/json"
 	"fmt"
 	"net/http"
 	"os"
 	"path/filepath"
 	"runtime"
+	"strconv"
 	"strings"
 	"syscall"
 	"testing"
@@ -593,8 +595,45 @@ func TestSelfCLI(t *testing.T) {
 		if wp, err := syscall.Wait4(pid, &ws, syscall.WNOHANG, nil); err == nil && wp == 0 {
 			fail("CLI: child %d is still running", pid)
 		}
+		// pids are recycled quickly on a busy machine, so a live process group with this number
+		// proves nothing by itself: only a member that runs OUR server binary counts
 		if err := syscall.Kill(-pid, 0); err == nil {
-			fail("CLI: process group %d still has members", pid)
+			if m := ownGroupMember(pid); m != 0 {
+				fail("CLI: process group %d still has a member running the server binary (pid %d)", pid, m)
+			}
 		}
 	}
+}
+
+// ownGroupMember returns the pid of a process in process group pgid whose executable is the
+// desync binary of this run (0 if there is none).
+func ownGroupMember(pgid int) int {
+	bin := os.Getenv("VERIF_DESYNC_BIN")
+	ents, _ := os.ReadDir("/proc")
+	for _, e := range ents {
+		p, err := strconv.Atoi(e.Name())
+		if err != nil {
+			continue
+		}
+		st, err := os.ReadFile("/proc/" + e.Name() + "/stat")
+		if err != nil {
+			continue
+		}
+		// pid (comm) state ppid pgrp ...; comm may hold blanks, so cut behind the last ')'
+		i := bytes.LastIndexByte(st, ')')
+		if i < 0 {
+			continue
+		}
+		f := strings.Fields(string(st[i+1:]))
+		if len(f) < 3 {
+			continue
+		}
+		if g, _ := strconv.Atoi(f[2]); g != pgid {
+			continue
+		}
+		if exe, err := os.Readlink("/proc/" + e.Name() + "/exe"); err == nil && bin != "" && exe == bin {
+			return p
+		}
+	}
+	return 0
 }
